@@ -13,7 +13,7 @@ RULE = (
     "(graph signature, op-kind sequence) pairs whose history contains at least one derived read after an assignment"
 )
 REQUIRED = {"reads_derived": 2000, "reverts_partial": 50, "reverts_full": 100, "clones": 100, "quiescent_checks": 1000,
-            "model_histories": 10, "reads_unset_raised": 20, "many_path_graphs": 50, "weighted_assignments": 200}
+            "model_histories": 10, "reads_unset_raised": 20, "many_path_graphs": 50, "weighted_assignments": 200, "histories_on_unusual_scales": 50}
 ASSUMPTIONS = [
     "the documented precondition of a partial revert is respected by the generator (only individual-wise nodes are read between an "
     "assignment and a per-individual revert); individual-wise = no ancestor aggregates over individuals (toy: by construction; "
@@ -73,6 +73,11 @@ def run_shard(spec, ctx):
             ref = sh.RefState(dag, fork_mode=sh.FORKS[fork0])
             case.update(graph={n: (m.get("src") or m["kind"]) for n, m in meta.items()}, n=info["n"], fork0=fork0)
             run = sh.HistoryRunner(dag, real, ref, settable, readable, indwise, info["n"], rng, mk_viol(case))
+            if i % 8 == 3:
+                # quantities living on a very small (or very large) scale, as concentrations in mol/L: every value of the history is scaled
+                run.value_scale = float(10.0 ** rng.choice([-16.0, -13.0, -20.0, 12.0]))
+                case["value_scale"] = run.value_scale
+                ctx.count("histories_on_unusual_scales")
             # initial assignments of most independent variables (some left unset on purpose)
             for nm in settable:
                 if rng.random() < 0.85:
